@@ -74,8 +74,11 @@ public:
      */
     void stop() {
         decltype(_threads) tmp;
-        decltype(_queue) q;
         {
+            //q is declared before lk, so it is destroyed after the lock is released
+            //and BEFORE the workers are joined: the discarded jobs are canceled first,
+            //because a running job can be waiting for one of them
+            decltype(_queue) q;
             std::unique_lock lk(_mx);
             _exit = true;
             _cond.notify_all();
